@@ -2,6 +2,7 @@ import Nstd.Hash.LemmasStep
 import Nstd.Hash.PtrStep
 import Nstd.Hash.LemmasString
 import Nstd.Hash.LemmasConst
+import Nstd.Hash.LemmasStable
 import Nstd.Generated.HashConst
 /-
   Property C02: HashMap / HashSet / PoolMap behave as insertion-ordered unique-key tables.
@@ -250,6 +251,65 @@ theorem hash_respects_equality (v w : StrView) (hv : v.off + v.len < v.buf.lengt
   refine ⟨rfl, ?_⟩
   exact hash_string_total _ _ (by simp)
 
+/-! ### items never move while they live (mechanism level of property C05) -/
+
+/-- one step, chain-list model.  `id` is a live item of table `t` before the op (its id IS its slot `ipb·block + slot`, i.e. its
+    address); the op does not destroy / assign over table `t` (`construct`, `copyFrom`, `assign` of `t`: the life of all its
+    items ends).  Then
+    * unless the op releases exactly this item (`Op.releases`: remove by its key / by an iterator or value address designating
+      it, removeFront/Back when it is first/last, clear, bulk remove of its key) the item is still live afterwards with the
+      SAME id, in the same table variable – after `swap` in the other one (`Op.owner`: the items are handed over, ids
+      unchanged) –, the same key, and the same value unless this op wrote to the entry of its key (`Op.writes`: `setValue`,
+      or an insert of that very key into a HashMap: value overwritten in place; HashSet / PoolMap inserts never write, so
+      a PoolMap value is constructed in place once and only changed by the user through the iterator);
+    * if the op releases it, it is no longer live and its id is on the free list of the table. -/
+theorem items_stable_step (kind : Kind) (h : Nat → Nat) (s s' : State) (op : Op) (o : Out)
+    (hs : SInv h s) (hst : step kind h s op = some (s', o)) (t : Bool) (id : Nat)
+    (hl : id ∈ (s.get t).order) (hd : ¬ op.destroys t) :
+    (¬ op.releases s t id → Stays kind op t (s.get t) (s'.get (op.owner t)) id) ∧
+    (op.releases s t id → id ∉ (s'.get t).order ∧ id ∈ (s'.get t).free) :=
+  items_stable_step_aux kind h s s' op o hs hst t id hl hd
+
+/-- inserts never release an item: no live id is on the free list afterwards (and by `items_stable_step` all stay live) -/
+theorem insert_releases_nothing (kind : Kind) (h : Nat → Nat) (t : Table) (hi : t.Inv h) (pos k v : Nat)
+    (hp : pos ≤ t.order.length) : ∀ id ∈ t.order, id ∈ (t.insert kind h pos k v).1.order ∧ id ∉ (t.insert kind h pos k v).1.free :=
+  fun id hl => ⟨(hi.insert_stable kind pos k v id hl).1, hi.insert_free_subset kind pos k v hp id hl⟩
+
+/-- history level: an item that is live in table `t` at some point and is neither released nor has its owning table destroyed
+    by any of the following ops (`Survives`) is still live at the end, in the table variable that owns it then (`finalOwner`:
+    flips with every `swap`), with the same id (slot) and the same key -/
+theorem item_keeps_slot (kind : Kind) (h : Nat → Nat) (ops : List Op) (s s' : State) (outs : List Out) (t : Bool) (id : Nat)
+    (hs : SInv h s) (hl : id ∈ (s.get t).order) (hr : run kind h s ops = some (s', outs))
+    (hsv : Survives kind h s t id ops) :
+    id ∈ (s'.get (finalOwner t ops)).order ∧
+    ((s'.get (finalOwner t ops)).items id).key = ((s.get t).items id).key := by
+  induction ops generalizing s t outs with
+  | nil =>
+    simp only [run, Option.some.injEq, Prod.mk.injEq] at hr
+    rw [← hr.1]
+    exact ⟨hl, rfl⟩
+  | cons op ops ih =>
+    simp only [run] at hr
+    cases hst : step kind h s op with
+    | none => rw [hst] at hr; cases hr
+    | some r =>
+      obtain ⟨s1, o⟩ := r
+      rw [hst] at hr
+      simp only at hr
+      cases hrr : run kind h s1 ops with
+      | none => rw [hrr] at hr; cases hr
+      | some r2 =>
+        obtain ⟨s2, os⟩ := r2
+        rw [hrr] at hr
+        simp only [Option.some.injEq, Prod.mk.injEq] at hr
+        obtain ⟨e1, _⟩ := hr
+        subst e1
+        obtain ⟨h1, h2, h3⟩ := hsv
+        have hstay := (items_stable_step kind h s s1 op o hs hst t id hl h1).1 h2
+        have hs1 := (step_refines kind h s op hs).2 s1 o hst
+        have := ih s1 os (op.owner t) hs1 hstay.1 hrr (h3 s1 o hst)
+        exact ⟨this.1, by show ((s2.get (finalOwner (op.owner t) ops)).items id).key = _; rw [this.2, hstay.2.1]⟩
+
 /-! ### pointer level -/
 
 open Ptr in
@@ -374,6 +434,49 @@ theorem ptr_backward_iteration (kind : Kind) (h : Nat → Nat) (ipb dcap : Nat) 
     exact ⟨_, (h1.2.1.get t).1.order_eq (h1.2.2.get t), (h1.2.1.get t).1.orderBack_eq (h1.2.2.get t)⟩
 
 open Ptr in
+/-- `items_stable_step` at pointer level: `ps` is coupled with `s` (`PRel`, as every reachable pair is by `ptr_simulated`);
+    the pointer model makes the matching step, stays coupled, and a live item of the pointer heap (on the `next` list of
+    table `t`) keeps its id (address), key and – unless written by this op – value, in the table variable `Op.owner t`;
+    a released item is off the list and on the `prev`-linked free list -/
+theorem ptr_items_stable_step (kind : Kind) (h : Nat → Nat) (ps ps' : PState) (s : State) (op : Op) (o : Out)
+    (hp : PRel ps s) (hs : SInv h s) (hst : pstep kind h ps op = some (ps', o)) (t : Bool) (id : Nat) (l : List Nat)
+    (hl : (ps.get t).order = some l) (hid : id ∈ l) (hd : ¬ op.destroys t) :
+    ∃ s', step kind h s op = some (s', o) ∧ PRel ps' s' ∧
+      (¬ op.releases s t id →
+        ∃ l', (ps'.get (op.owner t)).order = some l' ∧ id ∈ l' ∧
+          ((ps'.get (op.owner t)).items id).key = ((ps.get t).items id).key ∧
+          (((ps'.get (op.owner t)).items id).value = ((ps.get t).items id).value ∨
+            ∃ v, op.writes kind t ((ps.get t).items id).key v ∧ ((ps'.get (op.owner t)).items id).value = v)) ∧
+      (op.releases s t id →
+        ∃ l' fl, (ps'.get t).order = some l' ∧ id ∉ l' ∧
+          FreeL (ps'.get t).items (ps'.get t).freeItem fl ∧ id ∈ fl) := by
+  have hsim := pstep_sim kind h ps s op hp hs
+  unfold StepSim at hsim
+  rw [hst] at hsim
+  cases hstep : step kind h s op with
+  | none => rw [hstep] at hsim; exact False.elim hsim
+  | some r =>
+    rw [hstep] at hsim
+    obtain ⟨s', o'⟩ := r
+    simp only at hsim
+    obtain ⟨eo, hp'⟩ := hsim
+    subst eo
+    have hs' := (step_refines kind h s op hs).2 s' o hstep
+    have hrel := (hp.get t).1
+    have hord : l = (s.get t).order := by
+      have := hrel.order_eq (hs.get t); rw [hl] at this; exact Option.some.inj this
+    subst hord
+    have hmain := items_stable_step kind h s s' op o hs hstep t id hid hd
+    refine ⟨s', rfl, hp', fun hne => ?_, fun hre => ?_⟩
+    · have hst' := hmain.1 hne
+      have hrel' := (hp'.get (op.owner t)).1
+      refine ⟨_, hrel'.order_eq (hs'.get _), hst'.1, ?_, ?_⟩
+      · rw [(hrel'.kv id).1, (hrel.kv id).1]; exact hst'.2.1
+      · rw [(hrel'.kv id).2, (hrel.kv id).2, (hrel.kv id).1]; exact hst'.2.2
+    · have hrel' := (hp'.get t).1
+      exact ⟨_, _, hrel'.order_eq (hs'.get t), (hmain.2 hre).1, hrel'.free, (hmain.2 hre).2⟩
+
+open Ptr in
 /-- the same at pointer level: block size and default capacity of every reachable pointer-level table are the class
     constants, and the items on its order list are slots of its allocated blocks -/
 theorem ptr_block_structure (kind : Kind) (h : Nat → Nat) (ipb dcap : Nat) (hk : 0 < ipb) (hd : 0 < dcap)
@@ -481,6 +584,19 @@ example :
     v.off + v.len < v.buf.length ∧ w.off + w.len < w.buf.length ∧ v.text = w.text ∧
       hashView v = some 0 ∧ hashView w = some 0 ∧ w.buf[w.off]? = some 98 := by
   decide
+
+/-- the hypotheses of `items_stable_step` are met, and both branches occur: in a one-bucket HashMap holding the keys 5 (item 0)
+    and 6 (item 3: the free list of a new 4-item block is 3,2,1), `remove(6)` does not destroy table 0, does not release item 0
+    and releases item 3 -/
+example :
+    let s : State := ((run Kind.map (fun _ => 7) init
+      [.construct false 1, .append false 5 50, .append false 6 60]).map (fun r => r.1)).getD init
+    0 ∈ (s.get false).order ∧ 3 ∈ (s.get false).order ∧ ¬ (Op.removeKey false 6).destroys false ∧
+      ¬ (Op.removeKey false 6).releases s false 0 ∧ (Op.removeKey false 6).releases s false 3 := by
+  refine ⟨by decide, by decide, ?_, ?_, ?_⟩
+  · simp [Op.destroys]
+  · simp only [Op.releases, true_and]; decide
+  · simp only [Op.releases, true_and]; decide
 
 example : hashStringReads 0 = [0, 0, 0] ∧ hashStringReads 5 = [0, 2, 4] := by decide
 
